@@ -78,6 +78,41 @@ fn main() {
         println!("{}", jobs::child_main(&job));
         return;
     }
+    if id == "LOADTEST" {
+        let n: usize = args[2].parse().unwrap();
+        let name = |i: usize| format!("x{i:02}");
+        let mut s = format!("{} -> {}\n${}: {}\n", name(0), name(0), name(0), name(0));
+        for i in 1..n { s.push_str(&format!("{} -> {}\n${}: {}\n", name(i - 1), name(i), name(i), name(i - 1))); }
+        let t0 = std::time::Instant::now();
+        let bn = biodivine_lib_param_bn::BooleanNetwork::try_from(s.as_str()).unwrap();
+        eprintln!("parsed {:?}", t0.elapsed());
+        let ctx = biodivine_lib_param_bn::symbolic_async_graph::SymbolicContext::new(&bn).unwrap();
+        eprintln!("context {:?}", t0.elapsed());
+        let g = biodivine_lib_param_bn::symbolic_async_graph::SymbolicAsyncGraph::new(&bn).unwrap();
+        eprintln!("plain graph {:?} {}", t0.elapsed(), g.num_vars());
+        let g = biodivine_hctl_model_checker::mc_utils::get_extended_symbolic_graph(&bn, 1).unwrap();
+        eprintln!("extended graph {:?} {}", t0.elapsed(), g.num_vars());
+        let _ = ctx;
+        return;
+    }
+    if id == "FAMILY" {
+        let t0 = std::time::Instant::now();
+        let big = bigmodels::load(&args[2], 1).expect("load");
+        println!("loaded {:?}", t0.elapsed());
+        let ss = biodivine_hctl_model_checker::evaluation::algorithm::compute_steady_states(&big.graph);
+        println!("steady {:?} {}", t0.elapsed(), ss.approx_cardinality());
+        let fam = props::c11::argument_family_mode(&big.graph, args[2].starts_with("synthetic:"));
+        println!("family {} in {:?}", fam.len(), t0.elapsed());
+        let all = props::c11::laws();
+        for li in [0usize, 1, 2, 4, 12, 19, 20] {
+            for pi in 0..fam.len() {
+                let t1 = std::time::Instant::now();
+                let r = props::c11::check_law(&all[li], &big.graph, &fam[pi].1, Some(&fam[3].1), Some(&fam[5].1));
+                println!("law {} p={} -> {:?} in {:?}", all[li].name, fam[pi].0, r, t1.elapsed());
+            }
+        }
+        return;
+    }
     if id == "MODELS" {
         use std::io::Write;
         let big = bigmodels::load(&args[2], 3).expect("load");
